@@ -67,7 +67,7 @@ static void run() {
     for (size_t li = 0; li < REG->size(); li++) for (auto& p : pats) for (unsigned coin : coins) {
         if ((int)(idx++ % (uint64_t)a.nworkers) != a.worker) continue;
         Case c = low_weight_case(p, REG->at(li).name_en, coin); set_current(c);
-        std::string m = oracle(c); done++; if (!m.empty()) { record_failure(c, m); return; }
+        std::string m = oracle(c); done++; if (!m.empty() && enum_fail(c, m)) return;
     }
     ev.enumerated["low-weight payloads (<=2 of 164 bits) x languages x coins{0,1,1024,2047} [this worker's shard]"] += done;
     // (ii) random
